@@ -614,6 +614,9 @@ def run(ctx):
     check_flush(ctx)
     n = len(E.icmds_in(ctx.repo.module(B).tree))
     ctx.anchor("C05.G", "ICmd constructions in sdk/builder.py", n, 55)
+    # 0 is an ordinary id / value / address: nothing int-valued may be tested by truthiness (nqsa/truth.py)
+    from .. import truth
+    truth.check(ctx, "C05.Z", ['netqasm.sdk.builder', 'netqasm.sdk.futures', 'netqasm.sdk.connection'])
 
 
 BF = "netqasm/sdk/builder.py"
